@@ -11,7 +11,7 @@ cd /verif
 ids="$@"; [ -z "$ids" ] && ids=$(python3 -c "import json;print(' '.join(c['property_id'] for c in json.load(open('MANIFEST.json'))['checks']))")
 rc=0
 for id in $ids; do
-  out=$(bin/notacheck -property $id -repo $D/wt -no-evidence 2>&1); r=$?
+  out=$(${NOTACHECK:-bin/notacheck} -property $id -repo $D/wt -no-evidence 2>&1); r=$?
   if [ $r -ne 0 ]; then rc=1; echo "FLAGS $id:"; echo "$out" | grep -E -A3 '^\s+\[(VIOLATED|UNDECIDED)\]' | cut -c1-${W:-420}; fi
 done
 [ $rc -eq 0 ] && echo "all checks silent"
